@@ -221,11 +221,15 @@ theorem fr_dirTimes (dp : Path) (T : List Path) (fs0 : FS) (dest : Str) : ∀ (e
   | [], _ => frSem_pure dp T fs0 _ _ trivial
   | e :: es, h => by
     simp only [dirTimesP]
-    refine bindF dp T fs0 _ _ (fr_info dp T fs0 (.utimes _ _ true) (h e (by simp)).toM) ?_
-    intro r _
+    refine bindF dp T fs0 _ _ (fr_info dp T fs0 (.lstat _) trivial) ?_
+    intro l _
     split
-    · exact frSem_pure dp T fs0 _ _ trivial
     · exact fr_dirTimes dp T fs0 dest es (fun x hx => h x (by simp [hx]))
+    · refine bindF dp T fs0 _ _ (fr_info dp T fs0 (.utimes _ _ true) (h e (by simp)).toM) ?_
+      intro r _
+      split
+      · exact frSem_pure dp T fs0 _ _ trivial
+      · exact fr_dirTimes dp T fs0 dest es (fun x hx => h x (by simp [hx]))
 
 /-- the paths an archive names: the path of every entry and the source of every hard-link entry -/
 def touched (dest : Str) (es : List Entry) : List Path :=
